@@ -57,6 +57,7 @@ def run(tier, replay_file=None):
     chk = Check('C05', tier)
     ex = chk.load(vermodel.MODELS + BASE_MODELS + httpmodel.MODELS)
     ex.const_models.append(httpmodel.const_model)
+    vermodel.register_comparator(ex)
     F_matches = mir.find(ex.fns, r'api_description::<impl at [^>]*>::matches$')
     F_overlaps = mir.find(ex.fns, r'api_description::<impl at [^>]*>::overlaps_with$')
     F_from_until = mir.find(ex.fns, r'api_description::<impl at [^>]*>::from_until$')
